@@ -1669,11 +1669,16 @@ theorem eff_printfTail {s s' : St} (h : Inv s) {v : Nat} (hv : v < s.n) {C : Nat
       simp only [hd2, hmm2', hm', Option.bind_eq_bind, Option.bind_some]; exact h3)
     exact ⟨E2.trans E3, rfl⟩
 
-theorem eff_printf {s s' : St} (h : Inv s) {v : Nat} (hv : v < s.n) {f : List Fmt} {r : Nat}
-    (e : printf s v f = some (s', r)) : Eff s s' v ((render f).map some) := by
-  simp only [printf, Option.bind_eq_bind, Option.bind_eq_some_iff] at e
+theorem eff_printfOut {s s' : St} (h : Inv s) {v : Nat} (hv : v < s.n) {out : List Nat} {r : Nat}
+    (e : printfOut s v out = some (s', r)) : Eff s s' v (out.map some) ∧ r = out.length := by
+  simp only [printfOut, Option.bind_eq_bind, Option.bind_eq_some_iff] at e
   obtain ⟨s1, h1, e⟩ := e
   obtain ⟨E1, X1⟩ := eff_detach h hv h1
-  exact E1.trans (eff_printfTail E1.inv (by rw [E1.n]; exact hv) X1 e).1
+  obtain ⟨E2, hr⟩ := eff_printfTail E1.inv (by rw [E1.n]; exact hv) X1 e
+  exact ⟨E1.trans E2, hr⟩
+
+theorem eff_printf {s s' : St} (h : Inv s) {v : Nat} (hv : v < s.n) {f : List Fmt} {r : Nat}
+    (e : printf s v f = some (s', r)) : Eff s s' v ((render f).map some) :=
+  (eff_printfOut h hv e).1
 
 end Nstd.Str
